@@ -3,6 +3,7 @@
   volatile state a crash loses.
 -/
 import MW.Lemmas.PersistFault
+import MW.Lemmas.LedgerReorg3
 namespace MW.Lemmas.PersistCrash
 open MW MW.Model.Ledger MW.Model.Persist MW.Spec.Persist MW.Lemmas.PersistOp MW.Lemmas.PersistFault
 
@@ -220,10 +221,32 @@ theorem useWallet_congr (P : PStore) (V1 V2 : PVol) (w : Wid) (h : VEq V1 V2) :
       · simp [hb]; exact ⟨h.1, rfl⟩
       · simp [hb]
 
-/-- Start on a wallet that is caught up with the node: no fast-forward, no catch-up, only the re-queue -/
-theorem start_quiet (env : Env) (n : Nat) (P : PStore) (V : PVol) (hq : env.node.tipHeight = P.led.syncedTo) :
-    start env n P V = ⟨true, P, { V with tasks := requeue P }, 0⟩ := by
-  unfold start
+/-- Start's resync step on a freshly booted wallet whose synced block is still the node's block at that
+    height: nothing to do -/
+theorem resync_boot_noop (env : Env) (n : Nat) (P : PStore) (ht : tipOnB env P = true)
+    (hle : P.led.syncedTo ≤ env.node.tipHeight) :
+    resync env n P (bootVol P) = ⟨true, P, bootVol P, 0⟩ := by
+  unfold resync
+  by_cases h0 : P.led.syncedTo = 0
+  · simp [h0]
+  · have hmin : min P.led.syncedTo env.node.tipHeight = P.led.syncedTo := Nat.min_eq_left hle
+    unfold tipOnB at ht
+    simp only [h0, if_false, hmin]
+    have hb0 : (P.led.syncedTo == 0) = false := by simpa using h0
+    rw [hb0, Bool.false_or] at ht
+    cases hb : env.node.blockAt P.led.syncedTo with
+    | none => rw [hb] at ht; simp at ht
+    | some x =>
+      rw [hb] at ht
+      have hs : AMap.get P.led.sync P.led.syncedTo = some x.id := by simpa using ht
+      have hbest : (bootVol P).led.best.hash = x.id := by simp [bootVol, hs]
+      simp [hbest]
+
+/-- Start (after the resync step) on a wallet that is caught up with the node: no fast-forward, no
+    catch-up, only the re-queue -/
+theorem startCore_quiet (env : Env) (n : Nat) (P : PStore) (V : PVol) (hq : env.node.tipHeight = P.led.syncedTo) :
+    startCore env n P V 0 = ⟨true, P, { V with tasks := requeue P }, 0⟩ := by
+  unfold startCore
   have hff : fastForward env n (env.node.tipHeight - Gen.Updates.ffGap) (env.node.tipHeight + 1) (P.led.syncedTo + 1) P V 0
       = (⟨true, P, V, 0⟩, P.led.syncedTo + 1) := by
     unfold fastForward
@@ -236,6 +259,14 @@ theorem start_quiet (env : Env) (n : Nat) (P : PStore) (V : PVol) (hq : env.node
   simp only [hff]
   split_ifs <;> simp_all
 
+/-- Start on a freshly booted wallet that is caught up with the node -/
+theorem start_quiet (env : Env) (n : Nat) (P : PStore) (hq : env.node.tipHeight = P.led.syncedTo)
+    (ht : tipOnB env P = true) :
+    start env n P (bootVol P) = ⟨true, P, { bootVol P with tasks := requeue P }, 0⟩ := by
+  unfold start
+  rw [resync_boot_noop env n P ht (by omega)]
+  simp [startCore_quiet env n P (bootVol P) hq]
+
 theorem vEq_refl (V : PVol) : VEq V V := ⟨rfl, rfl⟩
 theorem vEq_symm {V1 V2 : PVol} (h : VEq V1 V2) : VEq V2 V1 := ⟨h.1.symm, h.2.symm⟩
 theorem vEq_trans {V1 V2 V3 : PVol} (h : VEq V1 V2) (h' : VEq V2 V3) : VEq V1 V3 := ⟨h.1.trans h'.1, h.2.trans h'.2⟩
@@ -244,10 +275,10 @@ theorem crash_quiet_rel (n : Nat) (s1 s2 : Sys) (hq : quiet s1 = true) (hr : Cra
     CrashRel (stepEv n true s1 .crash) (stepEv n false s2 .crash) := by
   unfold quiet at hq
   simp only [Bool.and_eq_true, decide_eq_true_eq] at hq
-  obtain ⟨⟨hb, hk⟩, ht⟩ := hq
+  obtain ⟨⟨⟨hb, hk⟩, ht⟩, hton⟩ := hq
   have hb' := (bestInvB_iff _ _).1 hb
   simp only [stepEv, Model.Persist.crash, if_true]
-  rw [start_quiet s1.env n s1.P (bootVol s1.P) ht]
+  rw [start_quiet s1.env n s1.P ht hton]
   refine ⟨hr.1, hr.2.1, ?_⟩
   have h1 : VEq s1.V (bootVol s1.P) := boot_vEq s1.P s1.V hb' hk
   have h2 : VEq ({ bootVol s1.P with tasks := requeue s1.P }) (bootVol s1.P) := ⟨rfl, rfl⟩
@@ -348,35 +379,28 @@ theorem crashesQuiet_blocks (n : Nat) : ∀ (bs : List Block) (s : Sys), crashes
   | nil => intro s; rfl
   | cons b bs ih => intro s; simp only [List.map, crashesQuiet]; exact ih _
 
-/-- Start without the fast-forward: the catch-up loop from synced-to + 1, then the re-queue -/
-theorem start_noff (env : Env) (n : Nat) (P : PStore) (V : PVol)
+/-- Start (after the resync step) without the fast-forward: the catch-up loop from synced-to + 1, then
+    the re-queue -/
+theorem startCore_noff (env : Env) (n : Nat) (P : PStore) (V : PVol)
     (hnf : (!(!(readyWallets P.led (walletsOf V.keys)).isEmpty) && decide (env.node.tipHeight > Gen.Updates.ffGap)) = false) :
-    start env n P V =
+    startCore env n P V 0 =
       (let r2 := catchUp env n (env.node.tipHeight + 1) (P.led.syncedTo + 1) P V 0
        if !r2.ok then r2 else { r2 with V := { r2.V with tasks := requeue r2.P } }) := by
-  unfold start
+  unfold startCore
   simp only [hnf]
   simp
 
+theorem start_noff (env : Env) (n : Nat) (P : PStore)
+    (hnf : (!(!(readyWallets P.led (walletsOf (bootVol P).keys)).isEmpty) && decide (env.node.tipHeight > Gen.Updates.ffGap)) = false)
+    (ht : tipOnB env P = true) (hle : P.led.syncedTo ≤ env.node.tipHeight) :
+    start env n P (bootVol P) =
+      (let r2 := catchUp env n (env.node.tipHeight + 1) (P.led.syncedTo + 1) P (bootVol P) 0
+       if !r2.ok then r2 else { r2 with V := { r2.V with tasks := requeue r2.P } }) := by
+  unfold start
+  rw [resync_boot_noop env n P ht hle]
+  simp [startCore_noff env n P (bootVol P) hnf]
+
 -- ------------------------------------------------------------------ the follower's own retry (next notification)
-
-theorem forIn_noop {β : Type} (f : Nat → β → Except Err (ForInStep β)) (st : β)
-    (h : ∀ x, f x st = .ok (.yield st)) : ∀ l : List Nat, forIn l st f = .ok st := by
-  intro l
-  induction l with
-  | nil => rfl
-  | cons a l ih => simp [List.forIn_cons, h, bind, Except.bind, ih]
-
-theorem loop1_two (f : Nat → List Block × Block → Except Err (ForInStep (List Block × Block)))
-    (b b2 xb : Block)
-    (h1 : ∀ x, f x ([], b2) = .ok (.yield ([b2], b)))
-    (h2 : ∀ x, f x ([b2], b) = .ok (.yield ([b, b2], xb)))
-    (h3 : ∀ x, f x ([b, b2], xb) = .ok (.yield ([b, b2], xb))) :
-    ∀ l : List Nat, l.length ≥ 2 → forIn l ([], b2) f = .ok ([b, b2], xb) := by
-  intro l hl
-  match l, hl with
-  | x :: y :: tl, _ =>
-    simp [List.forIn_cons, h1, h2, bind, Except.bind, forIn_noop f _ h3 tl]
 
 /-- the reorganisation path taken by the notification AFTER a missed one: nothing is disconnected,
     the missed block and the new one are connected in one batch -/
@@ -391,14 +415,17 @@ theorem reorg_next (c : Ctx) (s : Store) (best : BlockMeta) (b b2 xb : Block)
          match filterBlock c s1 (readyWallets s c.wallets) b2 with
          | .error e => .error e
          | .ok (s2, c2) => .ok (s2, [], [(b.height, c1), (b2.height, c2)])) := by
+  have ha : alignNew c best.height (b2.height + 1) b2 [] = .ok (xb, [b, b2]) := by
+    have hf : b2.height + 1 = best.height + 1 + 1 + 1 := by omega
+    rw [hf]
+    have l1 : best.height < b2.height := by omega
+    have l2 : best.height < b.height := by omega
+    have l3 : ¬ best.height < xb.height := by omega
+    simp [alignNew, l1, l2, l3, hb, hx, pure, Except.pure]
   unfold reorg
-  simp only [bind, Except.bind, pure, Except.pure]
-  rw [loop1_two _ b b2 xb ?h1 ?h2 ?h3 (List.range (b2.height + 1)) (by simp [hh2])]
-  case h1 => intro x; simp [hh2, hb]
-  case h2 => intro x; simp [hh1, hx]
-  case h3 => intro x; simp [hhx]
-  simp only [hid, ne_eq, not_true_eq_false, if_false]
-  simp only [List.forIn_cons, List.forIn_nil, bind, Except.bind, pure, Except.pure]
+  simp only [bind, Except.bind, pure, Except.pure, ha]
+  simp only [reorgDisconnect, hid, if_true, pure, Except.pure]
+  simp only [connectAll, bind, Except.bind, pure, Except.pure]
   cases h1 : filterBlock c s (readyWallets s c.wallets) b with
   | error e => simp
   | ok r1 =>
@@ -485,5 +512,74 @@ theorem follower_retry (env : Env) (n : Nat) (b b2 xb : Block) (P : PStore) (V :
     | ok r2 =>
       obtain ⟨s2, c2⟩ := r2
       simp [volAfterBlock_comp]
+
+-- ------------------------------------------------------------------ on top of the ledger invariant (MW.Lemmas.Ledger)
+
+section LedgerInv
+open MW.Spec.Books MW.Lemmas.Ledger
+
+/-- the persistence model's block operation IS the ledger model's processBlock -/
+theorem processBlock_blockTx (c : Ctx) (s : Store) (v : Vol) (b : Block) :
+    processBlock c s v b =
+      match blockTx c s v.best b with
+      | .error _ => (s, v, false)
+      | .ok (s', ro, ad) => (s', volAfterBlock v b ro ad, true) := by
+  unfold processBlock blockTx volAfterBlock
+  rfl
+
+/-- BestInv from the ledger invariant: the follower's tip is the tip of the chain whose books the store holds -/
+theorem bestInv_of_inv {c : Ctx} {s : Store} {S : List Block} {b : Block} {n : BlockMeta}
+    (hI : Inv c s (S.take (b.height + 1))) (hb : S[b.height]? = some b) (hn : n = ⟨b.height, b.id⟩) :
+    n.height = s.syncedTo ∧ AMap.get s.sync s.syncedTo = some n.hash := by
+  have hl : b.height < S.length := (List.getElem?_eq_some_iff.1 hb).1
+  have hlen : (S.take (b.height + 1)).length = b.height + 1 := by rw [List.length_take]; omega
+  have hs : s.syncedTo = b.height := by have := hI.syncedTo; omega
+  subst hn
+  refine ⟨hs.symm, ?_⟩
+  rw [hs, hI.sync, syncOf, getElem?_take_of_lt (Nat.lt_succ_self _), hb]; rfl
+
+/-- pinv_block: EVERY successful block operation (direct extension, reorganisation with any number of
+    disconnects and connects, stale or duplicate notification) keeps BestInv, SyncWf and the ledger
+    invariant — for stores that hold the books of a chain (C01's `Inv`) with all address owners ready. -/
+theorem block_step_inv (env : Env) (n : Nat) (b : Block) (P : PStore) (V : PVol) (S : List Block)
+    (H : ReorgHyp (ctxOf env V) S) (hinj : IdInj (b :: (S ++ env.node.chain)))
+    (hI : Inv (ctxOf env V) P.led S) (hv : V.led.best = tipMeta S)
+    (hgen : b.height = 0 → b.prev ≠ (tipMeta S).hash)
+    (hAR : AllReady (ctxOf env V).own (readyWallets P.led (ctxOf env V).wallets))
+    (hne : (readyWallets P.led (ctxOf env V).wallets).isEmpty = false)
+    (hok : ((opBlock env n b).run none P V).ok = true) :
+    BestInv ((opBlock env n b).run none P V).P ((opBlock env n b).run none P V).V ∧
+    SyncWf ((opBlock env n b).run none P V).P ∧
+    ∃ S', Inv (ctxOf env V) ((opBlock env n b).run none P V).P.led S' ∧
+      ((opBlock env n b).run none P V).V.led.best = tipMeta S' ∧ GoodChain S' := by
+  obtain ⟨s', v', ok, hpb, hcase⟩ := MW.Lemmas.Ledger.processBlock_total H hinj hI hv hgen hAR hne
+  rw [processBlock_blockTx] at hpb
+  rw [block_none] at hok ⊢
+  cases hb : blockTx (ctxOf env V) P.led V.led.best b with
+  | error e => simp [hb] at hok
+  | ok r =>
+    obtain ⟨s1, ro, ad⟩ := r
+    rw [hb] at hpb
+    simp only [] at hpb ⊢
+    have e1 : s' = s1 := by cases hpb; rfl
+    have e2 : v' = volAfterBlock V.led b ro ad := by cases hpb; rfl
+    have e3 : ok = true := by cases hpb; rfl
+    subst e1 e2 e3
+    rcases hcase with ⟨hf, _, _⟩ | ⟨_, hbest, _, hwhich⟩
+    · cases hf
+    · have core : ∀ (N : List Block), GoodChain N → N[b.height]? = some b → Inv (ctxOf env V) s' (N.take (b.height + 1)) →
+          BestInv { P with led := s' } { V with led := volAfterBlock V.led b ro ad } ∧ SyncWf { P with led := s' } ∧
+          ∃ S', Inv (ctxOf env V) s' S' ∧ (volAfterBlock V.led b ro ad).best = tipMeta S' ∧ GoodChain S' := by
+        intro N hN hbN hIN
+        have hbi := bestInv_of_inv hIN hbN hbest
+        refine ⟨⟨hbi.1, hbi.2⟩, ?_, N.take (b.height + 1), hIN, ?_, goodChain_take hN b.height⟩
+        · unfold SyncWf; simp [hbi.2]
+        · rw [hbest, tipMeta_take hN hbN]
+      rcases hwhich with ⟨hbN, hIN⟩ | ⟨hbS, hIS⟩
+      · exact core _ H.goodN hbN hIN
+      · exact core _ H.goodS hbS hIS
+
+
+end LedgerInv
 
 end MW.Lemmas.PersistCrash
